@@ -59,6 +59,18 @@ PROPS["C04"] = {
                      "string-bearing packets (PUBLISH, SUBSCRIBE, UNSUBSCRIBE, CONNECT) round trips and all MQTT 5 packets: "
                      "harnesses exist (harness/kani/src/c04/rt_v4.rs) but time out at 300-600 s",
                      "payloads beyond the remaining-length boundaries are covered only through the varint family"]},
+        {"name": "v5_fixed_size_packets", "filters": ["c04::rt_v5::"], "tier": "quick", "timeout": 400, "jobs": 6, "min_harnesses": 12,
+         "kind": "round trip (client v5 encode -> client v5 decode) + D (broker v5 encoder vs client v5 encoder, byte for byte)",
+         "bounds": "PUBACK/PUBREC/PUBREL/PUBCOMP: packet id symbolic over 1..=65535, reason code concrete per instance (success short "
+                   "form and one failure code each), no properties; PINGREQ/PINGRESP; DISCONNECT: normal (short form, full round trip) "
+                   "and two router reasons (encoders only)",
+         "asserts": "write Ok; bytes written == size() == returned count; decode yields an equal packet and consumes exactly the frame; "
+                    "broker encoder bytes == client encoder bytes; DISCONNECT declares the remaining length it writes",
+         "encodes": ["rumqttc::v5::mqttbytes::v5::{Packet::read, Packet::write, Packet::size, PubAck, PubRec, PubRel, PubComp, PingReq, "
+                     "PingResp, Disconnect}::{read, write, size}",
+                     "rumqttd::protocol::v5::V5::write and puback/pubrec/pubrel/pubcomp/ping/disconnect::write"],
+         "stubs": [BYTES_MODEL],
+         "outside": ["MQTT 5 properties (every Option absent), string-bearing MQTT 5 packets, MQTT 5 broker decoders"]},
     ],
 }
 
@@ -76,6 +88,19 @@ PROPS["C05"] = {
          "encodes": CHECK_FNS, "stubs": [],
          "outside": ["frames longer than the buffer bound are represented only by their header (declared length "
                      "up to 2^28-1 is covered, the body bytes are not present)"]},
+        {"name": "client_v4_bodies", "filters": ["c05::body::v4_connack", "c05::body::v4_puback", "c05::body::v4_pubrec", "c05::body::v4_pubrel",
+                                                 "c05::body::v4_pubcomp", "c05::body::v4_suback", "c05::body::v4_unsuback",
+                                                 "c05::body::v4_pingreq", "c05::body::v4_pingresp", "c05::body::v4_disconnect"],
+         "tier": "quick", "timeout": 400, "jobs": 6, "min_harnesses": 10,
+         "kind": "totality + exact consumption of the MQTT 3.1.1 CLIENT decoder on complete frames with symbolic bodies",
+         "bounds": "type byte concrete per instance (CONNACK, PUBACK, PUBREC, PUBREL, PUBCOMP, SUBACK, UNSUBACK, PINGREQ, PINGRESP, "
+                   "DISCONNECT), declared remaining length every value 0..=4 (0..=3 for the empty packets), ALL body bytes symbolic",
+         "asserts": "Packet::read never panics; consumes exactly the declared frame whether it returns a packet or an error; never "
+                    "answers a complete frame with InsufficientBytes",
+         "encodes": ["rumqttc::mqttbytes::v4::Packet::read and the read() of the ten fixed-size packet types"],
+         "stubs": [BYTES_MODEL],
+         "outside": ["string-bearing packet bodies (CONNECT, PUBLISH, SUBSCRIBE, UNSUBSCRIBE), invalid type nibbles 0 / 15, every MQTT 5 "
+                     "body except the pings, and both broker decoders: harnesses exist (c05/body.rs) and time out"]},
     ],
 }
 
@@ -264,6 +289,21 @@ PROPS["C12"] = {
          "stubs": ["core::slice::memchr::{memchr, memrchr} -> byte loops with the same contract (the word-at-a-time originals do not finish)"],
          "outside": ["strings longer than 5 bytes; alphabet beyond the 7 symbols (level structure is what the rules are about)",
                      "DataLog::matches cache (HashMap)"]},
+        {"name": "matches", "filters": ["c12::m_c4_t0_", "c12::m_c4_t1_f0", "c12::m_c4_t1_f1", "c12::m_c4_t1_f2", "c12::m_c4_t2_f0",
+                                        "c12::m_c4_t2_f1", "c12::m_c4_t2_f2", "c12::m_c5_t1_f1", "c12::m_c5_t2_f1", "c12::m_c5_t2_f2",
+                                        "c12::m_d_t1_f1", "c12::m_d_t2_f1", "c12::m_d_t2_f2", "c12::agree_t1_f1", "c12::agree_t2_f1"],
+         "filters_quick": ["c12::m_c4_t1_f1", "c12::m_c4_t2_f1", "c12::m_c5_t1_f1", "c12::m_c5_t2_f1", "c12::m_d_t1_f1", "c12::m_d_t2_f1"],
+         "min_harnesses_quick": 6, "min_harnesses": 15,
+         "tier": "quick", "timeout_quick": 900, "timeout_thorough": 2400, "jobs": 6,
+         "kind": "R (byte-level reference matcher on valid pairs) + totality on all pairs, one copy per harness; D (3-copy agreement) in thorough",
+         "bounds": "topic and filter of CONCRETE lengths (pairs up to 2x2; quick: 1x1 and 2x1 for each copy), contents symbolic over "
+                   "{a, A, /, +, #, $, e-acute(2 bytes)} - 2-byte topics include the multi-byte first character",
+         "asserts": "matches() never panics on any pair; on (valid topic, valid filter) pairs it equals the MQTT rules ('+' one level, "
+                    "trailing '#' the parent and everything below, literal levels case-sensitive); a $-topic is matched by no filter; "
+                    "thorough: the three copies agree on every pair",
+         "encodes": ["rumqttc::mqttbytes::matches", "rumqttc::v5::mqttbytes::matches", "rumqttd::protocol::matches"],
+         "stubs": ["core::slice::memchr::{memchr, memrchr} -> byte loops with the same contract"],
+         "outside": ["pairs longer than 2x2 bytes (harnesses exist up to 4x4; one 2x2 instance takes 5-10 min)"]},
     ],
 }
 
@@ -281,5 +321,17 @@ PROPS["C20"] = {
          "stubs": [TRACING_STUB, BYTES_MODEL],
          "outside": ["decoding the produced bytes with the client decoders and the MQTT 5 encoder side (harnesses exist, time out)",
                      "that the router delivers across listeners (Router loop)"]},
+        {"name": "acks_and_disconnect_to_v5", "filters": ["c04::rt_v5::"], "tier": "quick", "timeout": 400, "jobs": 6, "min_harnesses": 12,
+         "kind": "(shared with C04) router acks / disconnects towards an MQTT 5 link: round trip (client v5 encode -> client v5 decode) + D (broker v5 encoder vs client v5 encoder, byte for byte)",
+         "bounds": "PUBACK/PUBREC/PUBREL/PUBCOMP: packet id symbolic over 1..=65535, reason code concrete per instance (success short "
+                   "form and one failure code each), no properties; PINGREQ/PINGRESP; DISCONNECT: normal (short form, full round trip) "
+                   "and two router reasons (encoders only)",
+         "asserts": "write Ok; bytes written == size() == returned count; decode yields an equal packet and consumes exactly the frame; "
+                    "broker encoder bytes == client encoder bytes; DISCONNECT declares the remaining length it writes",
+         "encodes": ["rumqttc::v5::mqttbytes::v5::{Packet::read, Packet::write, Packet::size, PubAck, PubRec, PubRel, PubComp, PingReq, "
+                     "PingResp, Disconnect}::{read, write, size}",
+                     "rumqttd::protocol::v5::V5::write and puback/pubrec/pubrel/pubcomp/ping/disconnect::write"],
+         "stubs": [BYTES_MODEL],
+         "outside": ["MQTT 5 properties (every Option absent), string-bearing MQTT 5 packets, MQTT 5 broker decoders"]},
     ],
 }
